@@ -54,6 +54,14 @@ func CoreFragments() map[string]*Fragment {
 			leaf("x", "sys", "mtu-ext"),
 			leaf("10", "if", e1, "unit", K{"id", "1"}, "vlan"),
 		}},
+		{Name: "fw", Leaves: []Leaf{ // valid with a warning: an optional leafref (require-instance false) that resolves to nothing
+			leaf("e8", "refs", "opt-uplink"),
+			leaf("w", "sys", "mtu-ext"),
+		}},
+		{Name: "fw2", Leaves: []Leaf{
+			leaf("e9", "refs", "opt-uplink"),
+			leaf("w2", "sys", "mtu-ext"),
+		}},
 		{Name: "fh", Leaves: []Leaf{ // second namespace
 			leaf("noc", "sys", "contact"),
 			leaf("note", "if", e1, "ext-note"),
